@@ -110,16 +110,60 @@ func hx(b []byte) string { return hex.EncodeToString(b) }
 
 func coqStr(s string) string { return "\"" + s + "\"" }
 
-func coqHexList(bs [][]byte) string {
+// patBytes is the deterministic pattern shared with Base/Bytes.v (pattern): compact transport of large inputs.
+func patBytes(n int, seed byte) []byte {
+	b := make([]byte, n)
+	for i := range b {
+		b[i] = byte((int(seed) + 31*i + i/256) % 256)
+	}
+	return b
+}
+
+func isPattern(b []byte) bool {
+	if len(b) < 128 {
+		return false
+	}
+	return bytes.Equal(b, patBytes(len(b), b[0]))
+}
+
+const digM = (1 << 48) - 1
+
+func digest(b []byte) (uint64, uint64) {
+	var h1, h2 uint64
+	for _, x := range b {
+		h1 = (h1*257 + uint64(x) + 1) & digM
+		h2 = (h2*263 + uint64(x) + 1) & digM
+	}
+	return h1, h2
+}
+
+// argStr: inputs travel as hex, or as a pattern reference when they are one
+func argStr(b []byte) string {
+	if isPattern(b) {
+		return fmt.Sprintf("!%08x%02x", len(b), b[0])
+	}
+	return hx(b)
+}
+
+// obsStr: large observations travel as length + digest
+func obsStr(b []byte) string {
+	if len(b) > 1024 {
+		h1, h2 := digest(b)
+		return fmt.Sprintf("#%08x%012x%012x", len(b), h1, h2)
+	}
+	return hx(b)
+}
+
+func coqStrList(bs [][]byte, f func([]byte) string) string {
 	parts := make([]string, len(bs))
 	for i, b := range bs {
-		parts[i] = coqStr(hx(b))
+		parts[i] = coqStr(f(b))
 	}
 	return "[" + strings.Join(parts, "; ") + "]"
 }
 
 // WriteCoq writes cases_<k>.v shards (at most shardSize cases each); the driver evaluates them in parallel.
-const shardSize = 400
+const shardSize = 80
 
 func (cs *CaseSet) WriteCoq(dir string, corrModule string) error {
 	n := len(cs.Cases)
@@ -135,11 +179,11 @@ func (cs *CaseSet) WriteCoq(dir string, corrModule string) error {
 			c := cs.Cases[i]
 			ops := make([]string, len(c.Ops))
 			for j, o := range c.Ops {
-				ops[j] = fmt.Sprintf("Op %d %s", o.Code, coqHexList(o.Args))
+				ops[j] = fmt.Sprintf("Op %d %s", o.Code, coqStrList(o.Args, argStr))
 			}
 			obs := make([]string, len(c.Obs))
 			for j, o := range c.Obs {
-				obs[j] = coqHexList(o)
+				obs[j] = coqStrList(o, obsStr)
 			}
 			sep := ";"
 			if i == hi-1 {
@@ -166,14 +210,14 @@ func (cs *CaseSet) WriteJSON(path string) error {
 		for j := range c.Ops {
 			c.Ops[j].ArgsHex = nil
 			for _, a := range c.Ops[j].Args {
-				c.Ops[j].ArgsHex = append(c.Ops[j].ArgsHex, hx(a))
+				c.Ops[j].ArgsHex = append(c.Ops[j].ArgsHex, argStr(a))
 			}
 		}
 		c.ObsHex = nil
 		for _, o := range c.Obs {
 			var l []string
 			for _, x := range o {
-				l = append(l, hx(x))
+				l = append(l, obsStr(x))
 			}
 			c.ObsHex = append(c.ObsHex, l)
 		}
